@@ -263,6 +263,13 @@ func (in *Interp) branch(c *T) bool {
 	if rT == "error" {
 		solverErr()
 	}
+	if rT == "unknown" {
+		// second opinion (one-shot solvers) before keeping a side whose feasibility is undecided
+		if pr, who := Portfolio(append(append([]*T(nil), in.pc...), c), in.cfg.TimeoutMs); pr == "unsat" {
+			in.portfolio[who]++
+			rT = "unsat"
+		}
+	}
 	if rT == "unsat" {
 		in.trace = append(in.trace, dForcedFalse)
 		in.prefix = append(in.prefix, dForcedFalse)
@@ -276,6 +283,12 @@ func (in *Interp) branch(c *T) bool {
 	}
 	if rF == "error" {
 		solverErr()
+	}
+	if rF == "unknown" {
+		if pr, who := Portfolio(append(append([]*T(nil), in.pc...), in.tb.Not(c)), in.cfg.TimeoutMs); pr == "unsat" {
+			in.portfolio[who]++
+			rF = "unsat"
+		}
 	}
 	if rF == "unsat" {
 		in.trace = append(in.trace, dForcedTrue)
